@@ -67,6 +67,23 @@ type Srv struct {
 	X    string
 }
 
+// two declared types with the same name (and therefore the same reflect.Type.String()) but different tags
+func confTagged() reflect.Type {
+	type Conf struct {
+		Port   int `bcl:"listen"`
+		Listen int
+	}
+	return reflect.TypeOf(Conf{})
+}
+
+func confPlain() reflect.Type {
+	type Conf struct {
+		Port   int
+		Listen int
+	}
+	return reflect.TypeOf(Conf{})
+}
+
 var catalogue = map[string]reflect.Type{
 	"T": reflect.TypeOf(T{}), "FooBar": reflect.TypeOf(FooBar{}), "Srv": reflect.TypeOf(Srv{}),
 }
@@ -127,6 +144,12 @@ func kindType(f bfldJ) reflect.Type {
 }
 
 func descType(fs []bfldJ, tname string) reflect.Type {
+	if tname == "Conf" {
+		if len(fs) > 0 && len(fs[0].Tag) > 0 {
+			return confTagged()
+		}
+		return confPlain()
+	}
 	if tname != "" {
 		t, ok := catalogue[tname]
 		if !ok {
@@ -253,7 +276,25 @@ func makeTarget(c *bindCase, st reflect.Type) (any, func() any) {
 		p := reflect.New(st)
 		return p.Interface(), func() any { return p.Elem().Interface() }
 	case "ptr-slice":
-		sl := reflect.MakeSlice(reflect.SliceOf(st), 2, 2) // two previous elements
+		sl := reflect.MakeSlice(reflect.SliceOf(st), 2, 4) // two previous, non-zero elements and spare capacity
+		for i := 0; i < 2; i++ {
+			for j := 0; j < st.NumField(); j++ {
+				f := sl.Index(i).Field(j)
+				if !f.CanSet() {
+					continue
+				}
+				switch f.Kind() {
+				case reflect.Int:
+					f.SetInt(int64(70 + i))
+				case reflect.String:
+					f.SetString("prev")
+				case reflect.Bool:
+					f.SetBool(true)
+				case reflect.Float64:
+					f.SetFloat(1.25)
+				}
+			}
+		}
 		p := reflect.New(sl.Type())
 		p.Elem().Set(sl)
 		return p.Interface(), func() any { return p.Elem().Interface() }
@@ -300,7 +341,7 @@ func makeTarget(c *bindCase, st reflect.Type) (any, func() any) {
 func judgeBind(c *bindCase, st reflect.Type, path string, run func(target any) error) (why, shape string, o bindObs) {
 	o.Path = path
 	target, cur := makeTarget(c, st)
-	before := cur()
+	before := fmt.Sprintf("%#v", cur()) // a rendering, not the value: a slice value would alias the backing array Bind may scribble on
 	var err error
 	func() {
 		defer func() {
@@ -324,8 +365,8 @@ func judgeBind(c *bindCase, st reflect.Type, path string, run func(target any) e
 			return "returned nil although a block field (or the name) cannot be stored unchanged / the target is unusable", "nil-for-error", o
 		}
 		if c.TK == "ptr-slice" || c.TK == "ptr-slice-int" {
-			if !reflect.DeepEqual(before, after) {
-				return "slice target changed although Bind returned an error", "slice-changed-on-error", o
+			if now := fmt.Sprintf("%#v", after); now != before {
+				return "slice target changed although Bind returned an error: before " + before + ", after " + now, "slice-changed-on-error", o
 			}
 		}
 	case "nil":
